@@ -91,7 +91,7 @@ def gen_wiki(rnd):
                 else:
                     parts.append("[[%s]]" % rnd.choice(arts))
             revs.append((nextrev(), " ".join(parts), rnd.choice(users), rnd.random() < 0.2))
-        w.add_page(a, 0, revs, contributors=rnd.sample(users, rnd.randint(1, 5)), anon=rnd.randint(0, 4))
+        w.add_page(a, 0, revs, contributors=rnd.sample(users, rnd.choice((1, 2, 3, 5, 7, len(users)))), anon=rnd.randint(0, 4))
     # redirects: chains and cycles
     reds = []
     for i in range(rnd.randint(0, 4)):
@@ -223,14 +223,18 @@ def run_fetch(rnd, workdir, idx, R, given=None):
         res_limit = rnd.choice((1, 2, 3, 7, 50, 500))
         noimages = rnd.random() < 0.2
         lat_seed = rnd.getrandbits(32)
+        server_cap = rnd.choice((500, 500, 3, 2, 1, 7))
     else:
         w, shared = wiki_from_case(given)
         entries = [tuple(e) for e in given["metabook"]]
         req_limit, res_limit = given["api_request_limit"], given["api_result_limit"]
         noimages, lat_seed = given["noimages"], given["latency_seed"]
+        server_cap = given.get("server_cap", 500)
     max_lat = rnd.choice((0.0, 0.0005, 0.003)) if given is None else given.get("max_latency", 0.0005)
     net = synthwiki.Net(random.Random(lat_seed), max_latency=max_lat)
     net.wikis = {"wiki.test": w, "commons.test": shared}
+    net.download_latency = (rnd.choice((None, None, 0.02, 0.06)) if given is None else given.get("download_latency"))
+    w.server_cap = shared.server_cap = server_cap
     synthwiki.install(net)
     # the documented settings (section fetch), set at run time as a configuration file would
     if not conf.config.has_section("fetch"):
@@ -248,7 +252,8 @@ def run_fetch(rnd, workdir, idx, R, given=None):
     case = {"pages": {t: [list(r) for r in p["revs"]] for t, p in allpages.items()}, "files": {k: v["repo"] for k, v in w.files.items()},
             "meta": {t: {"contributors": p["contributors"], "anon": p["anon"]} for t, p in allpages.items()},
             "metabook": [list(e) for e in entries], "api_request_limit": req_limit, "api_result_limit": res_limit,
-            "noimages": noimages, "latency_seed": lat_seed, "max_latency": max_lat}
+            "noimages": noimages, "latency_seed": lat_seed, "max_latency": max_lat, "server_cap": server_cap,
+            "download_latency": net.download_latency}
     _last["net"] = net
     R.breadcrumb(json.dumps(case)[:900000])
     st = Status()
